@@ -181,7 +181,6 @@ func trunc(s string, n int) string {
 	return s
 }
 
-
 // PanicClass normalises a panic value to a class.
 func PanicClass(v string) string {
 	switch {
